@@ -585,27 +585,20 @@ func pruneArray(v any) any {
 		return nil
 	}
 
-	var n bool
-	var r []any
 	for i, va := range a {
-		if n {
-			if va != nil {
-				r = append(r, va)
-			}
-
+		if va != nil {
 			continue
 		}
 
-		if va == nil {
-			if i > 0 {
-				r = append(r, a[:i]...)
+		r := make([]any, i, len(a)-1)
+		copy(r, a[:i])
+
+		for _, vb := range a[i+1:] {
+			if vb != nil {
+				r = append(r, vb)
 			}
-
-			n = true
 		}
-	}
 
-	if n {
 		return r
 	}
 
